@@ -11,6 +11,8 @@ from __future__ import annotations
 
 import copy
 
+import os
+
 import numpy as np
 
 import common
@@ -167,7 +169,60 @@ def same(a, b):
     return a == b
 
 
-def real_oracle(args):
+def pool_oracle(args):
+    """Real process pools (several workers): trajectories of one run, and of consecutive runs on the same objects, must not repeat
+    each other.  Noise is strong enough that every trajectory carries several randomly timed jumps (two independent trajectories
+    coincide with probability ~0)."""
+    from qiskit import QuantumCircuit
+    from mqt.yaqs import simulator
+    from mqt.yaqs.core.data_structures.networks import MPO, MPS
+    from mqt.yaqs.core.data_structures.noise_model import NoiseModel
+    from mqt.yaqs.core.data_structures.simulation_parameters import AnalogSimParams, Observable, StrongSimParams
+
+    kind, n = args["kind"], args.get("n", 10)
+    L = 3
+    saved = os.environ.get("YAQS_MAX_WORKERS")
+    os.environ["YAQS_MAX_WORKERS"] = str(args.get("workers", 4))
+    try:
+        if kind == "strong":
+            nm = NoiseModel([{"name": nme, "sites": [i], "strength": 0.3} for i in range(L) for nme in ("pauli_x", "pauli_z")])
+            qc = QuantumCircuit(L)
+            for _ in range(6):
+                for q in range(L):
+                    qc.rx(0.4, q)
+                qc.cx(0, 1); qc.cx(1, 2)  # noqa: E702
+            p = StrongSimParams([Observable("z", i) for i in range(L)] + [Observable("x", 0)], num_traj=n, sample_layers=True, show_progress=False)
+            op = qc
+        else:
+            nm = NoiseModel([{"name": nme, "sites": [i], "strength": 0.5} for i in range(L) for nme in ("lowering", "pauli_x")])
+            p = AnalogSimParams([Observable("z", i) for i in range(L)] + [Observable("x", 0)], elapsed_time=3.0, dt=0.1, num_traj=n,
+                                solver="MCWF" if kind == "analog-MCWF" else "TJM", show_progress=False)
+            op = MPO.ising(L, 1.0, 0.5)
+        st = MPS(L, state="x+")
+        prev, prev_label = None, ""
+        for label, par in args.get("history", [("parallel run 1", True), ("parallel run 2", True), ("serial run 3", False)]):
+            simulator.run(st, op, p, nm, parallel=par)
+            rows = np.hstack([np.real(np.asarray(o.trajectories)).astype(float).reshape(n, -1) for o in p.sorted_observables])
+            if rows.shape[0] != n:
+                return f"{kind}: {label} delivered {rows.shape[0]} trajectories, requested {n}"
+            dup = [(i, j) for i in range(n) for j in range(i + 1, n) if np.array_equal(rows[i], rows[j])]
+            if dup:
+                return (f"{kind}: {label} with {os.environ['YAQS_MAX_WORKERS']} workers: trajectories {dup[0][0]} and {dup[0][1]} are bit-identical "
+                        f"({len(dup)} identical pairs among {n} noisy trajectories) — their randomness is not independent")
+            if prev is not None:
+                cross = [(i, j) for i in range(n) for j in range(n) if np.array_equal(prev[i], rows[j])]
+                if cross:
+                    return f"{kind}: trajectory {cross[0][1]} of {label} repeats trajectory {cross[0][0]} of {prev_label} bit for bit"
+            prev, prev_label = rows, label
+    finally:
+        if saved is None:
+            os.environ.pop("YAQS_MAX_WORKERS", None)
+        else:
+            os.environ["YAQS_MAX_WORKERS"] = saved
+    return None
+
+
+def real_oracle(args, notes=None):
     from qiskit import QuantumCircuit
 
     from mqt.yaqs import simulator
@@ -194,12 +249,12 @@ def real_oracle(args):
     def mk():
         if kind == "strong":
             return StrongSimParams([Observable("z", 0), Observable("x", 2)], num_traj=ntraj, show_progress=False)
-        if kind == "analog":
+        if kind in ("analog", "mcwf"):
             return AnalogSimParams([Observable("z", 0), Observable("x", 2)], elapsed_time=0.2, dt=0.1, num_traj=ntraj,
-                                   order=args.get("order", 2), show_progress=False)
+                                   order=args.get("order", 2), solver="MCWF" if kind == "mcwf" else "TJM", show_progress=False)
         return WeakSimParams(shots=ntraj, show_progress=False)
 
-    op = H if kind == "analog" else qc
+    op = H if kind in ("analog", "mcwf") else qc
     before = [snapshot(x) for x in (op, nm, st)]
     p = mk()
     # history: the requested sequence on the shared object
@@ -212,14 +267,16 @@ def real_oracle(args):
             np.random.default_rng = real_rng
         n_exec = ntraj if noisy else 1
         inner = [c for c in rng_calls if not c[0] and not c[1]]
-        if noisy and kind != "weak" and len(inner) != n_exec:
-            return f"{kind}: {len(inner)} OS-seeded generators were created for {n_exec} trajectories (one per trajectory expected)"
+        if noisy and kind != "weak" and len(inner) != n_exec and notes is not None:
+            # the mechanism of the model (one OS-seeded generator per noisy trajectory), not the property itself: a serial run could
+            # share one generator; reported as a broken correspondence, the pool oracle below looks for repeated trajectories
+            notes.append(f"{kind}: {len(inner)} OS-seeded generators were created for {n_exec} trajectories (one per trajectory in the model)")
         if noisy and len({c[2] for c in inner}) != len(inner):
             return f"{kind}: two trajectories started from the same generator state"
         if any(c[0] or c[1] for c in rng_calls if c[0] != (None,)):
             seeded = [c[0] for c in rng_calls if c[0] and c[0] != (None,)]
-            if seeded and kind != "weak":
-                return f"{kind}: a trajectory generator was created with a fixed seed {seeded[:2]}"
+            if seeded and kind != "weak" and notes is not None:
+                notes.append(f"{kind}: a trajectory generator was created with a fixed seed {seeded[:2]} (OS entropy in the model)")
     after = [snapshot(x) for x in (op, nm, st)]
     names = ("operator", "noise model", "initial state")
     for nme, b, a in zip(names, before, after):
@@ -245,7 +302,7 @@ def real_oracle(args):
 
 
 def search(ctx):
-    plan = [dict(kind=k, hist=h) for k in ("strong", "analog", "weak") for h in ([True], [False, True], [True, False])]
+    plan = [dict(kind=k, hist=h) for k in ("strong", "analog", "weak", "mcwf") for h in ([True], [False, True], [True, False])]
     plan.append(dict(kind="analog", hist=[True], order=1))
     if not ctx.quick:
         for _ in range(20):
@@ -253,8 +310,12 @@ def search(ctx):
                              order=int(ctx.rng.integers(1, 3))))
     for a in plan:
         try:
+            notes = []
             with common.time_limit(180):
-                why = real_oracle(a)
+                why = real_oracle(a, notes)
+            for note in notes:
+                ctx.mismatch("trajectory generators vs the model (one OS-seeded numpy Generator per noisy trajectory)", a, note,
+                             "one default_rng() without arguments per trajectory", key="generators")
         except common.HardTimeout:
             ctx.notes.append(f"real oracle timed out {a}")
             continue
@@ -264,10 +325,31 @@ def search(ctx):
         ctx.count("real_" + a["kind"])
         if why:
             ctx.violation("real:" + a["kind"], why, {"oracle": "real", "args": a})
+    pool_search(ctx)
+
+
+def pool_search(ctx):
+    """real worker processes: no trajectory may repeat another one of the same run or of the previous run on the same objects"""
+    for kind in ("analog-MCWF", "analog-TJM", "strong"):
+        a = dict(kind=kind, n=10 if ctx.quick else 16, workers=4)
+        try:
+            with common.time_limit(300):
+                why = pool_oracle(a)
+        except common.HardTimeout:
+            ctx.notes.append(f"pool oracle timed out {a}")
+            continue
+        except Exception as e:  # noqa: BLE001
+            why = f"simulator.run (parallel) raised {type(e).__name__}: {e}"
+        ctx.case(nontrivial_key=("pool", kind))
+        ctx.count("real_pool_" + kind)
+        if why:
+            ctx.violation("pool:" + kind, why, {"oracle": "pool", "args": a})
 
 
 def replay(ctx, data):
     rp = data.get("replay", data)
+    if rp.get("oracle") == "pool":
+        return pool_oracle(rp["args"])
     if rp.get("oracle") == "real":
         return real_oracle(rp["args"])
     if rp.get("oracle") == "history":
